@@ -1,5 +1,6 @@
 import PwVerif.Proofs.Exec
 import PwVerif.Proofs.ExecFin
+import PwVerif.Proofs.ExecNest
 /-!
 # C06 — A failing node is contained, reported, and leaves consistent statuses
 
@@ -147,6 +148,204 @@ example : ((runActs Cfg.repaired wExec.toDag (init wExec.toDag) [.start, .delive
 example : ((runActs Cfg.repaired wStart.toDag (init wStart.toDag) [.start, .start, .complete 0, .exit]).map
     (fun s => (s.phase, s.errs, s.running))) = some (.exited, [1], []) := by decide
 
+/-! ## Nesting and exception classes
+
+The statement is about failures "wherever in the graph", "including nodes inside nested macros", and
+about "the original exception" whatever its class. `ExecNest.Tree E` is a composite whose children may
+be composites to any depth (`E` = exception classes; the machine cannot look at them). `NReach cfg t₀ t`:
+`t` is reachable from the fresh, properly wired tree `t₀` by any interleaving of the actions of the
+composites of all levels (and therefore by every interleaving a real run can produce, whether a macro
+runs locally — its parent waits — or on an executor). A composite at child-index path `p` is
+`t.sub p = .comp d exc s kids`; `kids i = .leaf` says child `i` is a function node. -/
+
+open PwVerif.ExecNest
+
+variable {E : Type}
+
+def NReach (cfg : Cfg) (t₀ t : Tree E) : Prop :=
+  NWF t₀ ∧ Fresh t₀ ∧ ∃ acts, nrun cfg t₀ acts = some t
+
+theorem nreach_inv {cfg : Cfg} {t₀ t : Tree E} (h : NReach cfg t₀ t) : NInv cfg t ∧ NWF t := by
+  obtain ⟨wf, hf, acts, ha⟩ := h
+  exact nrun_inv cfg acts t₀ t wf (fresh_ninv cfg t₀ wf hf) ha
+
+/-- CONTAINED, every depth: in whatever composite of the tree, a child with an upstream that has not
+completed successfully (failed function node, failed macro, or anything not yet done) has not been
+invoked — and if that child is a macro, nothing inside it, at any depth, has been invoked either -/
+theorem C06_nest_no_downstream {cfg : Cfg} {t₀ t : Tree E} (h : NReach cfg t₀ t)
+    (p : List Nat) (d : Dag) (exc : Nat → E) (s : S) (kids : Nat → Tree E) (hs : t.sub p = .comp d exc s kids)
+    (i j : Nat) (hj : j ∈ d.deps i) (hf : s.st j ≠ .done) :
+    s.calls i = 0 ∧ s.st i = .idle ∧
+    ∀ q d' exc' s' kids', (kids i).sub q = .comp d' exc' s' kids' → ∀ x, s'.calls x = 0 ∧ s'.st x = .idle := by
+  have hinv := ninv_sub cfg t p (nreach_inv h).1
+  rw [hs] at hinv
+  obtain ⟨hI, _, hL⟩ := hinv
+  have hi : s.st i = .idle := by
+    apply Classical.byContradiction
+    intro hn
+    exact hf (hI.core.order i j hn hj)
+  have hc := hI.core.calls1 i
+  simp [hi] at hc
+  refine ⟨hc, hi, ?_⟩
+  intro q d' exc' s' kids' hq x
+  have := fresh_sub _ q ((hL i).1 hi)
+  rw [hq] at this
+  obtain ⟨rfl, _⟩ := this
+  simp [init]
+
+/-- REPORTED, every depth: when the outermost loop has ended, its run raises (and the composite is marked
+failed) iff some function node — at whatever depth — ended failed -/
+theorem C06_nest_reported {t₀ : Tree E} {d : Dag} {exc : Nat → E} {s : S} {kids : Nat → Tree E}
+    (h : NReach Cfg.repaired t₀ (.comp d exc s kids)) (ho : phaseOver s.phase = true) :
+    compFailed s = true ↔ ∃ p i, FailedLeafAt (.comp d exc s kids) p i :=
+  (over_failed_iff Cfg.repaired rfl rfl _ d exc s kids rfl (nreach_inv h).1 ho).1
+
+/-- NOBODY LEFT RUNNING, every depth: when the error (or the result) reaches the caller of the outermost
+run, in every composite of the tree no child is out — whatever sibling was in flight when the failure
+happened — and every composite is either through with its loop or was never started -/
+theorem C06_nest_nobody_running {t₀ t : Tree E} (h : NReach Cfg.repaired t₀ t) (ho : t.over = true)
+    (p : List Nat) (d : Dag) (exc : Nat → E) (s : S) (kids : Nat → Tree E) (hs : t.sub p = .comp d exc s kids) :
+    s.running = [] ∧ (∀ i, s.st i ≠ .out) ∧ (phaseOver s.phase = true ∨ s = init d) := by
+  have := settled_sub t p (over_settled Cfg.repaired rfl t (nreach_inv h).1 ho)
+  rw [hs] at this
+  exact ⟨this.1, this.2.1, this.2.2.1⟩
+
+/-- MARKED, every depth: when the outermost loop has ended, in every composite of the tree a macro child
+is marked failed iff some function node below it failed (so: every composite on the path to a failing
+function node, and no other composite); a function child is marked failed only if its function raises,
+it was then invoked exactly once, and a child whose function raises is never marked done -/
+theorem C06_nest_failed_exactly {t₀ t : Tree E} (h : NReach Cfg.repaired t₀ t) (ho : t.over = true)
+    (p : List Nat) (d : Dag) (exc : Nat → E) (s : S) (kids : Nat → Tree E) (hs : t.sub p = .comp d exc s kids) :
+    (∀ k, kids k ≠ .leaf → (s.st k = .failed ↔ ∃ q i, FailedLeafAt (kids k) q i)) ∧
+    (∀ i, kids i = .leaf → s.st i = .failed → d.fails i = true ∧ s.calls i = 1) ∧
+    (∀ i, kids i = .leaf → d.fails i = true → s.st i ≠ .done) := by
+  have hinv := ninv_sub Cfg.repaired t p (nreach_inv h).1
+  have hset := settled_sub t p (over_settled Cfg.repaired rfl t (nreach_inv h).1 ho)
+  rw [hs] at hinv hset
+  have hI := hinv.1
+  refine ⟨?_, ?_, ?_⟩
+  · rcases hset.2.2.1 with hov | hinit
+    · exact (over_failed_iff Cfg.repaired rfl rfl _ d exc s kids rfl hinv hov).2
+    · intro k _
+      have hidle : s.st k = .idle := by rw [hinit]; rfl
+      constructor
+      · intro hf; rw [hidle] at hf; cases hf
+      · rintro ⟨q, i, hq⟩
+        exact absurd hq (fresh_no_failed _ ((hinv.2.2 k).1 hidle) q i)
+  · intro i hl hf
+    have h1 := hI.core.failedFails i hf
+    have h2 := hI.core.calls1 i
+    simp [hf] at h2
+    simp only [effDag, hl] at h1
+    exact ⟨h1, h2⟩
+  · intro i hl hf hd
+    have := hI.core.doneOk i hd
+    simp only [effDag, hl] at this
+    rw [hf] at this; cases this
+
+/-- OUTPUTS KEPT, every depth: a failed child's output holds the value it had when the run started -/
+theorem C06_nest_outputs_kept {cfg : Cfg} {t₀ t : Tree E} (h : NReach cfg t₀ t)
+    (p : List Nat) (d : Dag) (exc : Nat → E) (s : S) (kids : Nat → Tree E) (hs : t.sub p = .comp d exc s kids)
+    (i : Nat) (hf : s.st i = .failed) : s.out i = d.out0 i := by
+  have hinv := ninv_sub cfg t p (nreach_inv h).1
+  rw [hs] at hinv
+  exact hinv.1.core.valNot i (by simp [hf])
+
+/-- ORIGINAL EXCEPTION, every depth, every exception class: if exactly one function node failed — child `i`
+of the composite at path `p` — then what the caller of the outermost run gets is a chain of
+`FailedChildError`s, exactly one per composite on the path, and at its bottom the very exception `exc i`
+that function raised; `E` is arbitrary -/
+theorem C06_nest_cause {t₀ t : Tree E} (h : NReach Cfg.repaired t₀ t) (ho : t.over = true)
+    (p : List Nat) (i : Nat) (hfl : FailedLeafAt t p i)
+    (huniq : ∀ p' i', FailedLeafAt t p' i' → p' = p ∧ i' = i) :
+    ∃ e d exc s kids, raised t = some e ∧ t.sub p = .comp d exc s kids ∧ e.root = some (exc i) ∧
+      e.depth = p.length + 1 :=
+  raised_unique Cfg.repaired rfl rfl t p i (nreach_inv h).1 ho hfl huniq
+
+/-- CLASS INDEPENDENCE: renaming the exception classes by any `f` commutes with running any schedule and
+with what the caller sees — the control flow of the executor does not depend on what is raised -/
+theorem C06_nest_class_independent {E' : Type} (cfg : Cfg) (f : E → E') (t : Tree E)
+    (acts : List (List Nat × Act)) :
+    nrun cfg (t.mapExc f) acts = (nrun cfg t acts).map (Tree.mapExc f) ∧
+    raised (t.mapExc f) = (raised t).map (Err.map f) :=
+  ⟨nrun_mapExc cfg f acts t, raised_mapExc f t⟩
+
+/-- PROGRESS: until the outermost loop has ended some action of some level is enabled (in particular a
+composite child whose completion the parent waits for can itself move) -/
+theorem C06_nest_progress {cfg : Cfg} {t₀ t : Tree E} (h : NReach cfg t₀ t) (hno : t.over = false) :
+    ∃ p a t', nstep cfg t p a = some t' :=
+  nprogress cfg t (nreach_inv h).1 hno
+
+/-- the flat machine of the theorems above is the depth-0 case of the nested one -/
+theorem C06_nest_flat (cfg : Cfg) (d : Dag) (exc : Nat → E) (s : S) (a : Act) :
+    nstep cfg (.comp d exc s (fun _ => .leaf)) [] a =
+      (step cfg d s a).map (fun s' => .comp d exc s' (fun _ => .leaf)) :=
+  nstep_flat cfg d exc s a
+
+/-! ### a concrete three-level run (non-vacuity of the nested theorems)
+
+outermost: `slow` (0, on an executor), `pre` (1) → macro `mid` (2) → `post` (3);
+`mid`: `a` (0) → macro `inner` (1) → `z` (2);   `inner`: `x` (0) → `boom` (1, raises class 7) → `y` (2).
+The macros are not starting nodes; `slow` is still out when the failure comes up and completes late. -/
+
+def wInner : FinDag :=
+  { n := 3, slots := [[], [[0]], [[1]]], down := [[1], [2], []], starters := [0],
+    onExec := [false, false, false], fails := [false, true, false], rank := [0, 1, 2] }
+def wMid : FinDag :=
+  { n := 3, slots := [[], [[0]], [[1]]], down := [[1], [2], []], starters := [0],
+    onExec := [false, false, false], fails := [false, false, false], rank := [0, 1, 2] }
+def wTop : FinDag :=
+  { n := 4, slots := [[], [], [[1]], [[2]]], down := [[], [2], [3], []], starters := [0, 1],
+    onExec := [true, false, false, false], fails := [false, false, false, false], rank := [0, 0, 1, 2] }
+
+def excTab : Nat → Nat := fun i => 7 + i
+
+def tInner : Tree Nat := mkComp wInner.toDag excTab []
+def tMid : Tree Nat := mkComp wMid.toDag excTab [(1, tInner)]
+def tTop : Tree Nat := mkComp wTop.toDag excTab [(2, tMid)]
+
+def actsNest : List (List Nat × Act) :=
+  [([], .start), ([], .start), ([], .deliver),            -- slow submitted, pre done, mid started
+   ([2], .start), ([2], .deliver),                         -- a done, inner started
+   ([2, 1], .start), ([2, 1], .deliver), ([2, 1], .exit),  -- x done, boom raises, inner's loop ends
+   ([2], .complete 1), ([2], .exit),                       -- inner finishes failed; mid's loop ends
+   ([], .complete 2),                                      -- mid finishes failed — slow is still out
+   ([], .complete 0), ([], .exit)]                         -- the outermost loop waits for slow, then ends
+
+theorem someNest : (nrun Cfg.repaired tTop actsNest).isSome = true := by decide
+def tEnd : Tree Nat := (nrun Cfg.repaired tTop actsNest).get someNest
+
+theorem nwfTop : NWF tTop :=
+  nwf_mkComp _ _ _ (FinDag.check_sound wTop (by decide)).1 (by
+    intro x hx; simp at hx; subst hx
+    exact nwf_mkComp _ _ _ (FinDag.check_sound wMid (by decide)).1 (by
+      intro y hy; simp at hy; subst hy
+      exact nwf_mkComp _ _ _ (FinDag.check_sound wInner (by decide)).1 (by intro z hz; cases hz)))
+
+theorem freshTop : Fresh tTop :=
+  fresh_mkComp _ _ _ (by
+    intro x hx; simp at hx; subst hx
+    exact fresh_mkComp _ _ _ (by
+      intro y hy; simp at hy; subst hy
+      exact fresh_mkComp _ _ _ (by intro z hz; cases hz)))
+
+theorem reachNest : NReach Cfg.repaired tTop tEnd :=
+  ⟨nwfTop, freshTop, actsNest, (Option.some_get someNest).symm⟩
+
+example : tEnd.over = true := by decide
+example : FailedLeafAt tEnd [2, 1] 1 := ⟨_, _, _, _, rfl, rfl, by decide⟩
+/-- what the caller sees: three `FailedChildError`s (outermost, mid, inner) and at the bottom class 8 = `excTab 1` -/
+example : (raised tEnd).map (fun e => (e.root, e.depth)) = some (some 8, 3) := by decide
+/-- while `mid` has already failed, `slow` is still out and the outermost loop cannot end -/
+example : ((nrun Cfg.repaired tTop (actsNest.take 11)).bind (fun t => nstep Cfg.repaired t [] .exit)).isNone = true := by
+  decide
+/-- `post`, `z`, `y` (downstream of the failure at the three levels) were never invoked -/
+example : (match tEnd with | .comp _ _ s _ => s.calls 3 | .leaf => 1) = 0 := by decide
+example : (match tEnd.sub [2] with | .comp _ _ s _ => (s.calls 2, s.st 1) | .leaf => (1, .idle)) = (0, .failed) := by
+  decide
+example : (match tEnd.sub [2, 1] with | .comp _ _ s _ => (s.calls 2, s.st 1, s.running) | .leaf => (1, .idle, [])) =
+    (0, .failed, []) := by decide
+
 end PwVerif.C06
 
 #print axioms PwVerif.C06.C06_no_downstream
@@ -157,3 +356,12 @@ end PwVerif.C06
 #print axioms PwVerif.C06.C06_reported_partial
 #print axioms PwVerif.C06.C06_exec_failure_unreported_witness
 #print axioms PwVerif.C06.C06_abort_leaves_running_witness
+#print axioms PwVerif.C06.C06_nest_no_downstream
+#print axioms PwVerif.C06.C06_nest_reported
+#print axioms PwVerif.C06.C06_nest_nobody_running
+#print axioms PwVerif.C06.C06_nest_failed_exactly
+#print axioms PwVerif.C06.C06_nest_outputs_kept
+#print axioms PwVerif.C06.C06_nest_cause
+#print axioms PwVerif.C06.C06_nest_class_independent
+#print axioms PwVerif.C06.C06_nest_progress
+#print axioms PwVerif.C06.C06_nest_flat
